@@ -484,6 +484,9 @@ def run_case(case, variant):
 
 
 def replay_case(case):
+    if "api" in case:
+        from . import apiuse
+        return apiuse.replay_case(case, ("C10",))
     if "defctx" in case:
         c = tuple(tuple(x) if isinstance(x, list) else x for x in case["defctx"])
         t = run_defctx(c, case["variant"], case["k"])
@@ -523,6 +526,10 @@ def check(tier="quick", seed=0, workers=None, only=None):
             total += n
             viols += v
             classes |= cl
+    from . import apiuse
+    n_api, av = apiuse.run_all(("C10",)) if not only else (0, [])
+    viols += av
+    total += n_api
     ncfg = sum(1 for c in allc if c[0] == "config")
     ndef = sum(1 for c in allc if c[0] == "defctx")
     cov = {"evaluations": total, "distinct_nontrivial": len(classes), "exhaustive": True,
